@@ -26,7 +26,15 @@ func PeerDoc(t *core.Tape) []byte {
 			perturbShape(t, v)
 		}
 	}
-	b, _ := json.Marshal(v)
+	var doc any = v
+	// documents need not be objects: a bare list of values and ids, a bare id
+	switch t.Draw(16) {
+	case 0:
+		doc = []any{v, peerID(t, "notes"), peerValue(t, 2)}
+	case 1:
+		doc = peerID(t, "notes")
+	}
+	b, _ := json.Marshal(doc)
 	return b
 }
 
@@ -95,7 +103,13 @@ func perturbShape(t *core.Tape, node map[string]any) {
 				node[k] = "https://peer.example/linked/" + k
 			}
 		case float64, int:
-			node[k] = fmt.Sprint(x)
+			// a number as a string, or one of the magnitudes a peer may legally write
+			switch t.Draw(3) {
+			case 0:
+				node[k] = fmt.Sprint(x)
+			default:
+				node[k] = json.RawMessage(peerNumbers[t.Draw(len(peerNumbers))])
+			}
 		case bool:
 			node[k] = fmt.Sprint(x)
 		case nil:
@@ -113,6 +127,32 @@ func sortStrings(a []string) {
 	}
 }
 
+// numbers a JSON writer may emit for any numeric member: negative, fractional, with an exponent, beyond
+// 64 bits, beyond float64, tiny
+var peerNumbers = []string{"-1", "0.5", "-0", "1e3", "1E+2", "4294967296", "18446744073709551615", "18446744073709551616",
+	"99999999999999999999999999", "-9223372036854775809", "1e400", "-1e400", "1e-400", "0.0000000000000000000000001", "1.7976931348623157e308", "123456789.123456789e-5"}
+
+// ids and links in the forms that occur in the fediverse or that RFC 3986 allows: the library parses them with
+// net/url in comparisons, path helpers and formatting
+var peerOddIRIs = []string{"acct:user@peer.example", "urn:uuid:6ba7b810-9dad-11d1-80b4-00c04fd430c8", "mailto:user@peer.example", "did:web:peer.example:users:1",
+	"/users/1", "users/1", "", "#main-key", "?page=2", "//peer.example/users/1", "https://[::1]:8443/users/1", "https://peer.example:/users/1",
+	"https://PEER.example/Users/1/", "https://user:pw@peer.example/users/1", "https://peer.example/users/%zz", "https://peer.example/users/a%20b?x=%41#frag",
+	"https://peer.example/users/éè", "https://xn--nxasmq6b.example/users/1", "http://peer.example:80/users/1/../2", "https://peer.example/" + "very/long/" + "path/path/path/path/path/path/path/path/path/path/path/path/path/path/path/path",
+	"https://www.w3.org/ns/activitystreams#Public", "as:Public", "Public", "https:", "https://", ":", "://", "tag:peer.example,2024:objectId=1:objectType=Status"}
+
+// times the way peers write them
+var peerTimes = []string{"2024-03-05T10:00:00Z", "2024-03-05T10:00:00.123Z", "2024-03-05T10:00:00.123456789+01:00", "2024-03-05T10:00:00-23:59", "2024-03-05T10:00Z",
+	"2024-03-05", "0000-01-01T00:00:00Z", "9999-12-31T23:59:59Z", "1969-12-31T23:59:59Z", "2024-02-30T10:00:00Z", "2024-03-05T24:00:00Z", "2024-03-05 10:00:00 UTC", "1709632800", ""}
+
+var peerDurations = []string{"PT5M", "P1Y2M3DT4H5M6S", "PT0S", "P1W", "-PT5M", "PT1.5S", "P99999999999Y", "PT", "P", "5m", ""}
+
+func peerTime(t *core.Tape) string {
+	if t.Bool(3, 4) {
+		return "2024-03-0" + fmt.Sprint(1+t.Draw(9)) + "T12:00:0" + fmt.Sprint(t.Draw(10)) + "Z"
+	}
+	return peerTimes[t.Draw(len(peerTimes))]
+}
+
 var peerShort = []string{"Hi", "a", "ok", "é", "-", "x y", "<p>longer <b>html</b> text</p>", "12", "", "line\nbreak", `quote"d`, `back\slash`}
 
 func peerText(t *core.Tape) string { return peerShort[t.Draw(len(peerShort))] }
@@ -126,6 +166,9 @@ func peerLangMap(t *core.Tape) map[string]any {
 }
 
 func peerID(t *core.Tape, kind string) string {
+	if t.Bool(1, 24) {
+		return peerOddIRIs[t.Draw(len(peerOddIRIs))]
+	}
 	return fmt.Sprintf("https://peer.example/%s/%d", kind, 1+t.Draw(5000))
 }
 
@@ -153,7 +196,7 @@ func peerNote(t *core.Tape, depth int) map[string]any {
 		"attributedTo": peerID(t, "users"),
 		"to":           []any{"https://www.w3.org/ns/activitystreams#Public"},
 		"cc":           []any{peerID(t, "users") + "/followers", peerID(t, "users")},
-		"published":    "2024-03-0" + fmt.Sprint(1+t.Draw(9)) + "T12:00:0" + fmt.Sprint(t.Draw(10)) + "Z",
+		"published":    peerTime(t),
 		"sensitive":    t.Bool(1, 2),
 	}
 	switch t.Draw(4) {
@@ -205,9 +248,42 @@ func peerNote(t *core.Tape, depth int) map[string]any {
 		}
 		n["replies"] = map[string]any{"id": n["id"].(string) + "/replies", "type": "Collection", "first": page}
 	}
+	if t.Bool(1, 4) {
+		n["updated"] = peerTime(t)
+		n["startTime"] = peerTime(t)
+		n["endTime"] = peerTime(t)
+		n["duration"] = peerDurations[t.Draw(len(peerDurations))]
+	}
+	if t.Bool(1, 4) {
+		n["source"] = map[string]any{"content": peerText(t), "mediaType": []string{"text/markdown", "text/plain", "", "text/html; charset=utf-8"}[t.Draw(4)]}
+	}
+	if t.Bool(1, 6) {
+		n["audience"] = peerID(t, "groups")
+		n["bto"] = []any{peerID(t, "users")}
+		n["bcc"] = peerID(t, "users")
+		n["generator"] = map[string]any{"type": "Application", "name": "peer-app"}
+		n["image"] = []any{map[string]any{"type": "Image", "url": []any{peerID(t, "media"), map[string]any{"type": "Link", "href": peerID(t, "media"), "mediaType": "image/webp"}}}}
+		n["preview"] = map[string]any{"type": "Video", "name": "Trailer", "duration": "PT1M", "url": map[string]any{"href": peerID(t, "media"), "mediaType": "video/mkv"}}
+		n["context"] = peerID(t, "contexts")
+		n["mediaType"] = "text/html"
+	}
 	if n["type"] == "Question" {
 		n["oneOf"] = []any{map[string]any{"type": "Note", "name": "yes", "replies": map[string]any{"type": "Collection", "totalItems": t.Draw(100)}}, map[string]any{"type": "Note", "name": "no"}}
-		n["closed"] = "2024-04-01T00:00:00Z"
+		switch t.Draw(4) {
+		case 0:
+			n["closed"] = peerTime(t)
+		case 1:
+			n["closed"] = true
+		case 2:
+			n["closed"] = peerID(t, "notes")
+		default:
+			n["closed"] = map[string]any{"type": "Note", "name": "closed by moderator"}
+		}
+		if t.Bool(1, 2) {
+			n["anyOf"] = n["oneOf"]
+			delete(n, "oneOf")
+		}
+		n["votersCount"] = t.Draw(1000)
 	}
 	return n
 }
@@ -277,9 +353,31 @@ func peerCollection(t *core.Tape) map[string]any {
 
 func peerValue(t *core.Tape, depth int) map[string]any {
 	var v map[string]any
-	switch t.Draw(6) {
+	switch t.Draw(8) {
 	case 0, 1:
 		v = peerNote(t, depth)
+	case 6:
+		// the rarer object kinds, with the members only they have
+		switch t.Draw(5) {
+		case 0:
+			v = map[string]any{"id": peerID(t, "places"), "type": "Place", "name": peerLangMap(t), "latitude": 36.75, "longitude": -119.7667, "altitude": 15.0, "accuracy": 94.5, "radius": 15, "units": []string{"miles", "m", "cm", "https://peer.example/units/furlong", ""}[t.Draw(5)]}
+		case 1:
+			v = map[string]any{"id": peerID(t, "profiles"), "type": "Profile", "summary": peerText(t), "describes": peerActor(t)}
+		case 2:
+			v = map[string]any{"id": peerID(t, "rels"), "type": "Relationship", "subject": peerActor(t), "relationship": "http://purl.org/vocab/relationship/acquaintanceOf", "object": []any{peerID(t, "users"), peerActor(t)}}
+		case 3:
+			v = map[string]any{"id": peerID(t, "notes"), "type": "Tombstone", "formerType": []any{"Note", "Image"}[t.Draw(2)], "deleted": peerTime(t), "summary": peerLangMap(t)}
+		default:
+			v = map[string]any{"type": []string{"Mention", "Link", "Hashtag"}[t.Draw(3)], "href": peerID(t, "users"), "name": "@user", "hreflang": "en", "mediaType": "text/html", "rel": []any{"canonical", "preview"}, "height": 100, "width": 100, "preview": peerID(t, "media")}
+		}
+	case 7:
+		// intransitive activities and the activity members the common ones do not use
+		v = map[string]any{"id": peerID(t, "activities"), "type": []string{"Arrive", "Travel", "Question", "Move", "Offer", "Invite"}[t.Draw(6)],
+			"actor": []any{peerID(t, "users"), peerActor(t)}, "origin": peerID(t, "places"), "target": map[string]any{"type": "Place", "name": "Work", "latitude": 1, "longitude": 2},
+			"result": peerNote(t, 2), "instrument": map[string]any{"type": "Service", "name": "peer-service"}, "published": peerTime(t), "summaryMap": peerLangMap(t)}
+		if t.Bool(1, 2) {
+			v["object"] = []any{peerID(t, "notes"), peerNote(t, 2)}
+		}
 	case 2:
 		v = peerActor(t)
 	case 3:
